@@ -409,12 +409,67 @@ def build(prop, tier="quick"):
         "assumed contracts of Num, Id, Quoted_String, Single_Quoted_String, Operator_Helper, build_match, is_operator (see kernels/grammar.py)",
         "A3: max_depth + 1 nested grammar frames fit the native stack",
     ]
+    u0.static_facts.append(optimizer_cast_fact())
     u0.unverified += [
         "termination of Dot_Fun_Array's `while (has_more)` loop (its end-of-line branch steps the cursor back; no decreases clause)",
         "the AST surgery of Dot_Fun_Array's method-call work-around and every read of node children",
         "Num, Id (the __FUNC__ / __CLASS__ scans of the match stack), Quoted_String's interpolation parser, Single_Quoted_String",
     ]
     return units
+
+
+def optimizer_cast_fact():
+    """supporting static fact (scan of chaiscript_optimizer.hpp): the optimizer runs inside parse(); a boxed_cast<T>(v) there
+    must not be able to throw bad_boxed_cast out of parse() - each one is either dominated by an `if` whose condition tests
+    the type of the same value `v` for the same `T`, or sits in a try block whose handler catches std::exception."""
+    op = chai2c.Header("include/chaiscript/language/chaiscript_optimizer.hpp")
+    txt = chai2c.strip_comments(op.text)
+    m = chai2c._mask(txt)
+    bad, unknown, n = [], [], 0
+    for mm in re.finditer(r"\bboxed_cast<(\w+)>\((\w+)\)", m):
+        T, v = mm.group(1), mm.group(2)
+        n += 1
+        test = re.compile(r"\b%s\.get_type_info\(\)\.(?:bare_equal\(user_type<%s>\(\)\)|bare_equal_type_info\(typeid\(%s\)\))" % (re.escape(v), T, T))
+        ok = False
+        mentioned = False
+        pos = mm.start()
+        depth = 0
+        i = pos
+        while i > 0 and not ok:
+            i -= 1
+            ch = m[i]
+            if ch == "}":
+                depth += 1
+            elif ch == "{":
+                if depth > 0:
+                    depth -= 1
+                    continue
+                # an enclosing block: what opens it?
+                head = m[:i].rstrip()
+                if head.endswith(")"):
+                    cp = len(head) - 1
+                    d, j = 0, cp
+                    while j >= 0:
+                        if m[j] == ")":
+                            d += 1
+                        elif m[j] == "(":
+                            d -= 1
+                            if d == 0:
+                                break
+                        j -= 1
+                    kw = re.search(r"(\w+)\s*$", m[:j])
+                    if kw and kw.group(1) == "if" and not re.search(r"\belse\s+if\s*$", m[:j]) or (kw and kw.group(1) == "if"):
+                        if test.search(txt[j:cp + 1]):
+                            ok = True
+                        elif re.search(r"\b%s\b" % re.escape(v), m[j:cp + 1]):
+                            mentioned = True  # tested in a form this scan does not know: undecided, never an alarm
+                elif head.endswith("try"):
+                    cb = chai2c.match_brace(m, i)
+                    if re.match(r"\s*catch \(const std::exception &\)", m[cb + 1:]):
+                        ok = True
+        if not ok:
+            (unknown if mentioned else bad).append("line %d: boxed_cast<%s>(%s)" % (txt.count("\n", 0, pos) + 1, T, v))
+    return ("parse_time_optimizer_casts_are_type_tested_or_caught", False if bad else (None if unknown or n < 1 else True), "; ".join(["not type-tested: " + b for b in bad] + ["tested in an unknown form: " + u for u in unknown]) or "%d casts, each under a type test of the same value or a catch of std::exception" % n)
 
 
 def _body_of(text, fname):
